@@ -458,6 +458,9 @@ class Merger:
             return self._merge_simple_lists(lhs, rhs, path, node_coord)
 
         # No RHS list
+        if not isinstance(lhs, CommentedSeq):
+            raise MergeException(
+                "Impossible to add Array data to non-Array destination.", path)
         return lhs
 
     def _merge_sets(
